@@ -167,12 +167,16 @@ def _profile(rng, n, kind):
 PROFILES = ['zeros', 'equal', 'ascending', 'onelong', 'random', 'random']
 
 
-def _gen_run(rng, k, D, n, profile, generic=False, stress=True, zero_batch=False):
+def _gen_run(rng, k, D, n, profile, generic=False, stress=True, zero_batch=False, dup=False):
   m = rng.choice([1, 2, 3])
   ny = rng.choice([1, 2])
   prog = _gen_prog(rng, m, generic, stress)
   leaves = prog['leaves']
   ids = rng.sample(range(100), n)          # distinct, NOT in positional order
+  if dup and n >= 2:                       # duplicate client ids: one result per input ENTRY is expected
+    for _ in range(rng.randrange(1, 3)):
+      i, j = rng.sample(range(n), 2)
+      ids[i] = ids[j]
   counts = _profile(rng, n, profile)
   clients = []
   for cid, nb in zip(ids, counts):
@@ -195,8 +199,10 @@ def _gen_script(rng, depth, budget):
       break
     budget[0] -= 1
     r = rng.random()
-    if r < 0.3:
+    if r < 0.2:
       ops.append({'op': 'get'})
+    elif r < 0.3:
+      ops.append({'op': 'bind'})      # fedjax.for_each_client(...): which backend does it bind?
     elif r < 0.5:
       ops.append({'op': 'set', 'b': rng.choice(BACKENDS)})
     elif r < 0.55:
@@ -225,8 +231,8 @@ def _flatten(block):
       turns.append([('set', op['b'])])
     elif k == 'setbad':
       turns.append([('setbad', None)])
-    elif k == 'get':
-      turns.append([('get', None)])
+    elif k in ('get', 'bind'):
+      turns.append([('get', None)])   # for_each_client() reads the choice through get_for_each_client_backend()
     elif k == 'enterbad':
       turns.append([('enterbad', None)])
     elif k == 'raise':
@@ -279,6 +285,7 @@ def _gen_cases(tier, rng):
       cases.append(_gen_run(rng, k, D, rng.randrange(1, 2 * D + 2), 'random', generic=True))
       cases.append(_gen_run(rng, k, D, max(2, rng.randrange(1, 2 * D + 2)), 'random', zero_batch=True))
       cases.append(_gen_run(rng, k, D, rng.randrange(1, 2 * D + 2), 'random', stress=False))
+      cases.append(_gen_run(rng, k, D, rng.randrange(2, 2 * D + 3), 'random', dup=True))
   ks = sorted({k for k, _ in plan})[:4]
   for i in range(nthreads):
     cases.append(_gen_threads(rng, ks[i % len(ks)]))
@@ -534,46 +541,68 @@ def _oracle_run(case, obs):
   tol = 1e-4 if case['tol'] else 0.0
   want = {}
   for cid, batches, cin in case['clients']:
-    want[cid] = (_ref_client(np, prog, wsr, case['shared'], batches, cin), len(batches))
+    want.setdefault(cid, []).append((_ref_client(np, prog, wsr, case['shared'], batches, cin), len(batches)))
+  input_ids = sorted(c[0] for c in case['clients'])
   rl = leaves[prog['res']['rleaf']]
+
+  def judge(y, exp):
+    """(output ok, results count ok, results ok, dtype/shape ok) of one yield against one input entry"""
+    (eout, eres), nb = exp
+    ok_v, ok_m = len(y['out']) == len(leaves), True
+    if ok_v:
+      for k, lp in enumerate(leaves):
+        v, mt = _leaf_matches(np, y['out'][k], eout[k], lp['int'], lp['shape'], tol)
+        ok_v, ok_m = ok_v and v, ok_m and mt
+    ok_n = ok_r = True
+    if wsr:
+      if y['res'] is None or len(y['res']) != nb:
+        ok_n = False
+      else:
+        for j, r in enumerate(y['res']):
+          if len(r) != 2:        # pytree leaves of {'leaf':..., 'r0':...} in key order
+            ok_r = False
+            break
+          v1, m1 = _leaf_matches(np, r[0], eres[j][1], rl['int'], rl['shape'], tol)
+          v2, m2 = _leaf_matches(np, r[1], eres[j][0], False, [], tol)
+          ok_m = ok_m and m1 and m2
+          if not (v1 and v2):
+            ok_r = False
+            break
+    return ok_v, ok_n, ok_r, ok_m
+
   for be in ('jit', 'debug', 'pmap'):
     o = obs[be]
     if o['err']:
       out.append((f'{be}-raises', f'{be} backend raised {o["err"]}: {o.get("err_text", "")}'))
       continue
     ids = [y['id'] for y in o['yields']]
-    if sorted(ids, key=repr) != sorted(want, key=repr):
+    if sorted(ids, key=repr) != sorted(input_ids, key=repr):
       extra = [i for i in ids if i not in want]
-      missing = [i for i in want if i not in ids]
-      out.append((f'{be}-ids', f'{be}: not exactly one result per input client id (yielded {ids}, extra {extra}, '
-                  f'missing {missing})'))
+      missing = [i for i in want if ids.count(i) < len(want[i])]
+      out.append((f'{be}-ids', f'{be}: not exactly one result per input client (yielded {ids}, input ids {input_ids}, '
+                  f'non-input ids {extra}, missing {missing})'))
+    left = {cid: list(exps) for cid, exps in want.items()}
     for y in o['yields']:
-      if y['id'] not in want:
+      cands = left.get(y['id'])
+      if not cands:
         continue
-      (eout, eres), nb = want[y['id']]
-      ok_v, ok_m = len(y['out']) == len(leaves), True
-      if ok_v:
-        for k, lp in enumerate(leaves):
-          v, mt = _leaf_matches(np, y['out'][k], eout[k], lp['int'], lp['shape'], tol)
-          ok_v, ok_m = ok_v and v, ok_m and mt
+      verdicts = [judge(y, e) for e in cands]
+      full = [i for i, v in enumerate(verdicts) if all(v)]
+      if full:
+        cands.pop(full[0])
+        continue
+      # no input entry with this id explains the yield: report against the closest one
+      best = max(range(len(cands)), key=lambda i: sum(verdicts[i]))
+      ok_v, ok_n, ok_r, ok_m = verdicts[best]
+      nb = cands[best][1]
+      cands.pop(best)
       if not ok_v:
         out.append((f'{be}-output', f'{be}: output of client {y["id"]} differs from final(shared, fold(step, init))'))
-      if wsr:
-        if y['res'] is None or len(y['res']) != nb:
-          out.append((f'{be}-step-results', f'{be}: client {y["id"]} has {nb} batches but '
-                      f'{None if y["res"] is None else len(y["res"])} step results'))
-        else:
-          for j, r in enumerate(y['res']):
-            # pytree leaves of {'leaf':..., 'r0':...} in key order
-            if len(r) != 2:
-              out.append((f'{be}-step-results', f'{be}: malformed step result'))
-              break
-            v1, m1 = _leaf_matches(np, r[0], eres[j][1], rl['int'], rl['shape'], tol)
-            v2, m2 = _leaf_matches(np, r[1], eres[j][0], False, [], tol)
-            ok_m = ok_m and m1 and m2
-            if not (v1 and v2):
-              out.append((f'{be}-step-results', f'{be}: step result {j} of client {y["id"]} differs from the fold'))
-              break
+      if not ok_n:
+        out.append((f'{be}-step-results', f'{be}: client {y["id"]} has {nb} batches but '
+                    f'{None if y["res"] is None else len(y["res"])} step results'))
+      elif not ok_r:
+        out.append((f'{be}-step-results', f'{be}: a step result of client {y["id"]} differs from the fold'))
       if not ok_m:
         out.append((f'{be}-dtype-shape', f'{be}: an output / step result of client {y["id"]} changed dtype or shape'))
     if o['deleted']:
@@ -599,7 +628,7 @@ def _thread_semantics(block, cur, reads):
     k = op['op']
     if k == 'set':
       cur = op['b']
-    elif k == 'get':
+    elif k in ('get', 'bind'):
       reads.append(KIND[cur])
     elif k == 'raise':
       return cur, True
@@ -651,8 +680,8 @@ def _tree(leaves):
 def _prog(prog):
   ls = []
   for lp in prog['leaves']:
-    ls.append('mk_lp %s %d %s %s %d %s %s %s %s %d %d %s %s' % (
-        fw.cbool(lp['int']), lp['init'], fw.qlit(lp['ia']), fw.qlit(lp['ib']), lp['step'], fw.qlit(lp['a']),
+    ls.append('mk_lp %s %s %d %s %s %d %s %s %s %s %d %d %s %s' % (
+        fw.cbool(lp['int']), fw.zlist(lp['shape']), lp['init'], fw.qlit(lp['ia']), fw.qlit(lp['ib']), lp['step'], fw.qlit(lp['a']),
         fw.qlit(lp['b']), fw.qlit(lp['d']), fw.qlit(lp['e']), lp['inv'], lp['final'], fw.qlit(lp['fa']),
         fw.qlit(lp['fb'])))
   r = prog['res']
@@ -660,26 +689,31 @@ def _prog(prog):
                                                 r['rinv'], r['rleaf'])
 
 
-def _sort_key(y):
-  return -1 if y['id'] is None else y['id']
+DTYPE = {'float32': 0, 'int32': 1}
+
+
+def _oleaf(l):
+  return f'({DTYPE.get(l["dtype"], 2)}, {fw.zlist(l["shape"])}, {_leaf(l["v"])})'
+
+
+def _otree(leaves):
+  return '[' + '; '.join(_oleaf(l) for l in leaves) + ']'
 
 
 def _obs_results(o, wsr):
-  if any(not (y['id'] is None or isinstance(y['id'], int)) for y in o['yields']):
-    return None
-  ys = sorted(o['yields'], key=_sort_key)      # stable
+  """The yielded triples in yield order (the model compares them as a multiset); every
+  leaf carries its dtype code and shape."""
   items = []
-  for y in ys:
+  for y in o['yields']:
     if not (y['id'] is None or isinstance(y['id'], int)):
       return None
     oid = 'None' if y['id'] is None else f'Some {fw.zlit(y["id"])}'
-    out = _tree([l['v'] for l in y['out']])
     if wsr and y['res'] is not None:
       # python leaf order of {'leaf', 'r0'} is (leaf, r0); the model's result tree is [r0; leaf]
-      res = '[' + '; '.join(_tree([l['v'] for l in reversed(r)]) for r in y['res']) + ']'
+      res = '[' + '; '.join(_otree(list(reversed(r))) for r in y['res']) + ']'
     else:
       res = '[]'
-    items.append(f'({oid}, {out}, {res})')
+    items.append(f'({oid}, {_otree(y["out"])}, {res})')
   return '[' + '; '.join(items) + ']'
 
 
